@@ -44,14 +44,14 @@ prop("C10",
      modules=["Emu2a.Props.C10"],
      theorems=["Emu2a.C10.abs_refines", "Emu2a.C10.abs_write", "Emu2a.C10.abs_read", "Emu2a.C10.read_pure",
                "Emu2a.C10.spec_read_write_same", "Emu2a.C10.spec_read_write_other", "Emu2a.C10.f9_split",
-               "Emu2a.C10.board_reads"],
+               "Emu2a.C10.board_reads", "Emu2a.C10.abs_keyIrq", "Emu2a.C10.keyIrq_machine", "Emu2a.C10.status_only_by_key"],
      harness="c10",
-     level_text="Lean refinement theorem abs_refines (for every sequence of writes/reads/input changes the bus model equals the abstract address map) with no-aliasing lemmas on the map; the model is tied to bus.rs by exhaustive single operations, all ordered write pairs and random sequences, each also compared with the map directly",
+     level_text="Lean refinement theorem abs_refines (for every sequence of writes/reads/input changes/key presses the bus model equals the abstract address map, which includes the interrupt status read at 0xF9: raised by a key press only - status_only_by_key: no write changes it) with no-aliasing lemmas on the map; the model is tied to bus.rs by exhaustive single operations, all ordered write pairs and random sequences, each also compared with the map directly",
      technique="Lean 4 refinement proof by induction over op lists + exhaustive/random differential against the abstract map",
      exhaustive={"quick": False, "thorough": True},
-     rule="single writes (all 256 addresses x values; quick tier thins RAM-address values to a residue class + 0/255), all 65 536 ordered write-address pairs, random sequences of writes/reads/input changes; each op is applied to the real Bus, to the Lean Bus model and to the abstract address map (spec.* lines), reads also check `bus == clone before the read` on the Rust side",
+     rule="single writes (all 256 addresses x values; quick tier thins RAM-address values to a residue class + 0/255), all 65 536 ordered write-address pairs, every mask byte written to 0xF9 after a key press under 4 earlier masks (status must survive), random sequences of writes/reads/input changes/key presses; each op is applied to the real Bus, to the Lean Bus model and to the abstract address map (spec.* lines), reads also check `bus == clone before the read` on the Rust side",
      explanation="abs_refines: for every op sequence the model bus seen through `abs` equals the abstract map; spec_read_write_*: no aliasing in the map; harness: real bus = model = map",
-     assumptions=["status registers read at 0xF1-0xF3/0xF9-0xFB are outside the map (C14 covers the board status)"],
+     assumptions=["status registers read at 0xF1-0xF3/0xFA-0xFB are outside the map (C14 covers the board status)", "the CPU's RETI (which clears the key bits of the status) is not a bus operation; C01/C04 cover it"],
      )
 
 prop("C05",
